@@ -12,6 +12,8 @@
  *   str[:lo..hi,...]                                       string with length parts
  *   t:<module>:<typedef>                                   derived type of an IETF module (laws only, no model)
  *   U(<ty>|<ty>|...)                                       union of the member types (a member may itself be U(...))
+ *   lref(<ty>) / lrefr(<ty>)                               leafref to a sibling leaf (require-instance false) / leaf-list (require-instance true) of type
+ *                                                          <ty>; alone or as a union member; op uvalid validates a value against given target instances
  *   pstr:[lo..hi,...]:<lvl>[/<lvl>...]                     string with patterns; a level is `;`-separated [!]<hex-pattern> (`!` =
  *                                                          invert-match); several levels = a typedef chain, one level per typedef,
  *                                                          the length parts sit on the last level
@@ -54,6 +56,7 @@ struct tyent {
     char *preamble;                      /* imports + typedefs the type statement needs */
     int needs_imports;
     char *idmods;                        /* identityref: space-separated module names of the identity set (incl. the leaf module) */
+    int ntg;                             /* leafref: number of target leaves / leaf-lists tg<k> in container c */
 };
 static struct tyent *tys;
 static size_t ntys;
@@ -71,6 +74,10 @@ kind_of_msg(const char *m)
     if (PFX("Invalid Base64 character")) return "B64Char";
     if (PFX("Base64 encoded value length must be divisible by 4")) return "B64Len";
     if (PFX("Newlines are expected every 64 Base64 characters")) return "B64Newline";
+    if (PFX("Failed to convert IPv4 address") || PFX("Failed to convert IPv6 address")) return "InetPton";
+    if ((PFX("Invalid IPv4 prefix") || PFX("Invalid IPv6 prefix")) && HAS("without a prefix length")) return "NoPrefixLen";
+    if (PFX("Invalid LYB ipv") && HAS(" zone character ")) return "LybZone";
+    if (PFX("Invalid LYB ipv") && HAS("-prefix prefix length ")) return "LybPrefixLen";
     if (PFX("Invalid date-and-time month")) return "DtMonth";
     if (PFX("Invalid date-and-time day of month")) return "DtDay";
     if (PFX("Invalid date-and-time hours")) return "DtHour";
@@ -90,6 +97,7 @@ kind_of_msg(const char *m)
         if (HAS("identity is disabled by if-feature")) return "Disabled";
         return "Other";
     }
+    if (PFX("Invalid leafref value")) return "NoTarget";
     if (PFX("Invalid instance-identifier")) return HAS("\" value - syntax error") ? "Syntax" : (HAS("\" value - semantic error") ? "Semantic" : "Other");
     if (PFX("Internal error")) return "Internal";
     if (PFX("Invalid non-")) return "Hint";
@@ -184,6 +192,7 @@ struct rctx {
     char *imports; size_t il;            /* import statements */
     char *body; size_t bl;               /* typedefs / identities */
     int ntd;                             /* typedef counter */
+    char *cbody; size_t cl; int ntg;     /* leafref: target leaves inside container c */
     int ietf;                            /* needs the ietf imports */
     char *idmods; size_t ml;             /* identityref: module names */
     char leafmod[64];                    /* identityref: name the leaf module must have */
@@ -362,6 +371,17 @@ render_type(const char *d, struct rctx *rc)
     size_t hl = colon ? (size_t)(colon - d) : strlen(d);
     int i;
 
+    if ((!strncmp(d, "lref(", 5) || !strncmp(d, "lrefr(", 6)) && d[strlen(d) - 1] == ')') {
+        /* leafref to a sibling leaf (lref: require-instance false) / leaf-list (lrefr: require-instance true) of the type inside the parentheses */
+        int req = d[4] == 'r';
+        char *inner = strndup(d + 5 + req, strlen(d) - 6 - req), *ty = render_type(inner, rc);
+        free(inner);
+        if (!ty) return NULL;
+        sb_add(&rc->cbody, &rc->cl, " %s tg%d { %s }", req ? "leaf-list" : "leaf", rc->ntg, ty);
+        free(ty);
+        sb_add(&buf, &len, "type leafref { path \"../tg%d\"; require-instance %s; }", rc->ntg++, req ? "true" : "false");
+        return buf;
+    }
     if (d[0] == 'U' && d[1] == '(' && d[strlen(d) - 1] == ')') {
         sb_add(&buf, &len, "type union {");
         if (render_members(d + 2, strlen(d) - 3, rc, &buf, &len) < 1) { free(buf); return NULL; }
@@ -503,7 +523,7 @@ refresh_types(void)
 
 /* ---- instance-identifier: descriptor `instid:<schema-ser>:<yang-hex>[,<yang-hex>...]`.  The modules are loaded as given (the first one has
  * `container c { leaf-list l; leaf s }` of type instance-identifier besides the data nodes the values point to); <schema-ser> is the serialisation
- * of lean/LyModel/Path/Drv.lean (the one harness/api_path.c computes) and must equal what is computed here from the lysc_node trees of the loaded
+ * of lean/LyModel/Path/Drv.lean (the one harness/api_path.c computes) with a type field after the kind (lean/LyModel/Val/DrvInst.lean) and must equal what is computed here from the lysc_node trees of the loaded
  * modules, in the order given - the model works on <schema-ser> alone. */
 static char
 ii_kind(const struct lysc_node *sn)
@@ -524,6 +544,47 @@ ii_hex(char **buf, size_t *len, const char *t)
     for (; *t; t++) sb_add(buf, len, "%02x", (unsigned char)*t);
 }
 
+/* type field of a leaf / leaf-list: hex of the descriptor of its compiled type (i8.. u64 with the range parts, bool, str without restrictions,
+ * enum:<hexname>=<value>,..., inst; `?` anything else), `-` for the other nodes */
+static void
+ii_type(char **buf, size_t *len, const struct lysc_node *sn)
+{
+    static const char *ints[] = {[LY_TYPE_INT8] = "i8", [LY_TYPE_INT16] = "i16", [LY_TYPE_INT32] = "i32", [LY_TYPE_INT64] = "i64",
+        [LY_TYPE_UINT8] = "u8", [LY_TYPE_UINT16] = "u16", [LY_TYPE_UINT32] = "u32", [LY_TYPE_UINT64] = "u64"};
+    const struct lysc_type *t; char *d = NULL; size_t dl = 0; LY_ARRAY_COUNT_TYPE u;
+
+    if (sn->nodetype == LYS_LEAF) t = ((const struct lysc_node_leaf *)sn)->type;
+    else if (sn->nodetype == LYS_LEAFLIST) t = ((const struct lysc_node_leaflist *)sn)->type;
+    else { sb_add(buf, len, "-"); return; }
+    switch (t->basetype) {
+    case LY_TYPE_INT8: case LY_TYPE_INT16: case LY_TYPE_INT32: case LY_TYPE_INT64:
+    case LY_TYPE_UINT8: case LY_TYPE_UINT16: case LY_TYPE_UINT32: case LY_TYPE_UINT64: {
+        const struct lysc_range *r = ((const struct lysc_type_num *)t)->range;
+        int uns = t->basetype == LY_TYPE_UINT8 || t->basetype == LY_TYPE_UINT16 || t->basetype == LY_TYPE_UINT32 || t->basetype == LY_TYPE_UINT64;
+        sb_add(&d, &dl, "%s", ints[t->basetype]);
+        if (r) LY_ARRAY_FOR(r->parts, u) {
+            if (uns) sb_add(&d, &dl, "%s%" PRIu64 "..%" PRIu64, u ? "," : ":", r->parts[u].min_u64, r->parts[u].max_u64);
+            else sb_add(&d, &dl, "%s%" PRId64 "..%" PRId64, u ? "," : ":", r->parts[u].min_64, r->parts[u].max_64);
+        }
+        break;
+    }
+    case LY_TYPE_BOOL: sb_add(&d, &dl, "bool"); break;
+    case LY_TYPE_STRING:
+        sb_add(&d, &dl, (((const struct lysc_type_str *)t)->length || ((const struct lysc_type_str *)t)->patterns) ? "?" : "str");
+        break;
+    case LY_TYPE_ENUM: {
+        const struct lysc_type_enum *e = (const struct lysc_type_enum *)t;
+        sb_add(&d, &dl, "enum");
+        LY_ARRAY_FOR(e->enums, u) { sb_add(&d, &dl, u ? "," : ":"); ii_hex(&d, &dl, e->enums[u].name); sb_add(&d, &dl, "=%" PRId32, e->enums[u].value); }
+        break;
+    }
+    case LY_TYPE_INST: sb_add(&d, &dl, "inst"); break;
+    default: sb_add(&d, &dl, "?"); break;
+    }
+    ii_hex(buf, len, d);
+    free(d);
+}
+
 static void
 ii_ser(char **buf, size_t *len, const struct lysc_node *parent, const struct lysc_module *mod)
 {
@@ -531,7 +592,7 @@ ii_ser(char **buf, size_t *len, const struct lysc_node *parent, const struct lys
 
     while ((it = lys_getnext(it, parent, mod, 0))) {
         sb_add(buf, len, "("); ii_hex(buf, len, it->module->name); sb_add(buf, len, ","); ii_hex(buf, len, it->name);
-        sb_add(buf, len, ",%c,", ii_kind(it));
+        sb_add(buf, len, ",%c,", ii_kind(it)); ii_type(buf, len, it); sb_add(buf, len, ",");
         if (!(it->nodetype & (LYS_LEAF | LYS_LEAFLIST | LYS_ANYDATA | LYS_ANYXML))) ii_ser(buf, len, it, NULL);
         sb_add(buf, len, ")");
     }
@@ -592,7 +653,7 @@ get_type(const char *desc)
         else snprintf(name, sizeof name, "vtm%zu", ntys);
         sb_add(&pre, &pl, "%s%s%s", rc.ietf ? IMPORTS : "", rc.imports ? rc.imports : "", rc.body ? rc.body : "");
         sb_add(&sch, &sl, "module %s { yang-version 1.1; namespace \"urn:%s\"; prefix v;%s"
-                " container c { leaf-list l { %s } leaf s { %s } } }", name, name, pre, yt, yt);
+                " container c {%s leaf-list l { %s } leaf s { %s } } }", name, name, pre, rc.cbody ? rc.cbody : "", yt, yt);
         if (lys_parse_mem(ctx, sch, LYS_IN_YANG, &mod) == LY_SUCCESS) {
             t->mod = mod;
             t->c = lys_find_child(NULL, mod, "c", 0, 0, 0);
@@ -603,11 +664,12 @@ get_type(const char *desc)
             t->preamble = pre;
             t->needs_imports = rc.ietf;
             t->idmods = rc.idmods; rc.idmods = NULL;
+            t->ntg = rc.ntg;
             yt = NULL; pre = NULL;
         }
         free(sch); free(pre);
     }
-    free(yt); free(rc.imports); free(rc.body); free(rc.idmods);
+    free(yt); free(rc.imports); free(rc.body); free(rc.idmods); free(rc.cbody);
     ntys++;
     refresh_types();
     ly_err_clean(ctx, NULL);
@@ -848,6 +910,47 @@ main(void)
                 back.realtype->plugin->free(ctx, &back);
             }
             free(s);
+        } else if (!strcmp(op, "uvalid") && r.ntok >= 5) {
+            /* uvalid <ty> <hex value> <hex target>*: the value in leaf-list l, every target value in every leaf-list tg<k> that takes it;
+             * lyd_validate_module (leafref require-instance, union validate callback) -> ok <canon-hex> <member index> | err <Kind> */
+            size_t n; char *s = vp_unhex(r.tok[4], &n); struct lyd_node *c1 = NULL, *node = NULL; int i, k; LY_ERR rc;
+            if (!s) { vp_reply(id, "err BadHex"); continue; }
+            lyd_new_inner(NULL, t->mod, "c", 0, &c1);
+            for (k = 0; k < t->ntg; k++) {
+                char nm[32]; snprintf(nm, sizeof nm, "tg%d", k);
+                for (i = 5; i < r.ntok; i++) {
+                    size_t tn; char *tv = vp_unhex(r.tok[i], &tn);
+                    struct lyd_node *tnode = NULL, *it;
+                    if (tv && !lyd_new_term(c1, NULL, nm, tv, 0, &tnode)) {
+                        /* target instances are distinct values */
+                        LY_LIST_FOR(lyd_child(c1), it) {
+                            if ((it != tnode) && (it->schema == tnode->schema) && !lyd_compare_single(it, tnode, 0)) { lyd_free_tree(tnode); break; }
+                        }
+                    }
+                    free(tv);
+                }
+            }
+            ly_err_clean(ctx, NULL);
+            if (lyd_new_term(c1, NULL, "l", s, 0, &node)) {
+                vp_reply(id, "err Reject");
+            } else if ((rc = lyd_validate_module(&c1, t->mod, 0, NULL))) {
+                const struct ly_err_item *e = ly_err_last(ctx);
+                vp_reply(id, "err %s", kind_of_msg(e ? e->msg : NULL));
+            } else {
+                const struct lyd_value *v = &((struct lyd_node_term *)node)->value;
+                const char *cn = lyd_get_value(node); unsigned member = 99;
+                if (v->realtype->basetype == LY_TYPE_UNION) {
+                    /* the member whose plug-in holds the value now (a leafref member holds it with the type of its target) */
+                    struct lysc_type **types = ((struct lysc_type_union *)v->realtype)->types; LY_ARRAY_COUNT_TYPE u;
+                    LY_ARRAY_FOR(types, u) {
+                        const struct lysc_type *ty = types[u];
+                        if (ty->basetype == LY_TYPE_LEAFREF) ty = ((struct lysc_type_leafref *)ty)->realtype;
+                        if (ty == v->subvalue->value.realtype) { member = (unsigned)u; break; }
+                    }
+                } else member = 0;
+                vp_begin(id, "ok"); vp_field_hex(cn, strlen(cn)); vp_field_u(member); vp_end();
+            }
+            lyd_free_all(c1); free(s);
         } else if (!strcmp(op, "idfmt") && r.ntok == 6) {
             size_t n; char *s = vp_unhex(r.tok[5], &n); const char *fmt = r.tok[4];
             if (!s) { vp_reply(id, "err BadHex"); continue; }
